@@ -58,13 +58,35 @@ class Models(object):
         t = prog.types[prog.peel_refs(tid)]
         return tm.adt(_norm_adt(t["path"]), idx)
 
-    def empty_emap(self, prog, ktid):
+    def empty_emap(self, prog, ktid, ev=None, vtid=None):
+        """Finite map with every key absent.  The value slot of an absent key holds the value
+        type's Default when it is known (a representation choice that makes
+        `*entry(k).or_default() += x` a plain addition); it is never observable while absent."""
         vs = prog.fieldless_enum_variants(ktid)
         t = prog.types[prog.peel_refs(ktid)]
+        dv = UNDEF
+        if ev is not None and vtid is not None:
+            vt = prog.types[vtid]
+            numeric = vt["k"] == "prim" or (vt["k"] == "adt" and (
+                vt["path"].endswith("HashMap") or vt.get("local") or vt["path"].endswith("RenNrenCo2")))
+            if numeric:
+                try:
+                    dv = self.default_of(ev, prog, vtid)
+                    if dv.op == "default":
+                        dv = UNDEF
+                except Exception:
+                    dv = UNDEF
         args = []
         for _ in vs:
-            args.extend([tm.FALSE, UNDEF])
+            args.extend([tm.FALSE, dv])
+        if dv is not UNDEF:
+            args.append(dv)       # trailing marker: "absent slots hold this default"
         return mk("emap", _norm_adt(t["path"]), *args)
+
+    def emap_default(self, m):
+        if m.op == "emap" and len(m.a) % 2 == 0:
+            return m.a[-1]
+        return None
 
     def empty_eset(self, prog, ktid):
         vs = prog.fieldless_enum_variants(ktid)
@@ -197,12 +219,13 @@ class Models(object):
     def map_remove(self, ev, m, k):
         if m.op == "emap":
             i = self.key_index(m, k)
+            d = self.emap_default(m)
             if i is not None:
-                return self.emap_set(m, i, tm.FALSE, UNDEF)
+                return self.emap_set(m, i, tm.FALSE, d if d is not None else UNDEF)
             out = m
             for (i, kc, p, old) in self.emap_entries(m):
                 c = tm.eq(k, kc)
-                out = self.emap_set(out, i, tm.and_(tm.not_(c), p), old)
+                out = self.emap_set(out, i, tm.and_(tm.not_(c), p), tm.ite(c, d, old) if d is not None else old)
             return out
         return mk("mapremove", m, k)
 
@@ -501,7 +524,7 @@ class Models(object):
                 return tm.NONE
             if p.endswith("HashMap"):
                 if prog.fieldless_enum_variants(t["args"][0]) is not None:
-                    return self.empty_emap(prog, t["args"][0])
+                    return self.empty_emap(prog, t["args"][0], ev, t["args"][1])
                 return mk("empty_map")
             if p.endswith("HashSet"):
                 if prog.fieldless_enum_variants(t["args"][0]) is not None:
